@@ -505,6 +505,13 @@ fn run_case(scratch: &Path, jj: &Path, i: usize, mut rng: Rng) -> CaseOut {
                     3 => "restore",
                     _ => "revert",
                 };
+                if !o.ok && err_kind(&o.stderr) == 9 && flip_at.is_some_and(|f| step >= f) {
+                    // the user-made immutable_heads() alias cannot be evaluated (b0 became
+                    // conflicted or was deleted): the command stops before doing anything
+                    bump("skipped-immutable-heads-error", &mut counts);
+                    n_modelled -= 1;
+                    continue;
+                }
                 let outcome = if !o.ok {
                     let e = err_kind(&o.stderr);
                     bump(
